@@ -1,6 +1,7 @@
 package props
 
 import (
+	mintertypes "github.com/chain4energy/c4e-chain/x/cfeminter/types"
 	"fmt"
 	"math/big"
 	"testing"
@@ -22,6 +23,13 @@ func TestC18Mint(t *testing.T) {
 		ts := GenBlockTimes(t, sched, lo, hi, 2, 10)
 		w, ctx := Case()
 		setupMinter(t, w, ctx, params, cfg.FirstID, nsTime(lo-secNs))
+		cl := []string{"mint_events"}
+		if rapid.IntRange(0, 3).Draw(t, "minterAccountFunded") == 0 {
+			// the minter's module account holds coins of the mint denomination (a genesis file may credit it, a
+			// sub-distributor may name it as a destination): what the event reports is what was minted all the same
+			FundModule(w.App, ctx, mintertypes.ModuleName, sdk.NewCoins(sdk.NewCoin(cfg.Denom, sdk.NewIntFromBigInt(genAmount(t, "minterAccountFunds", 24, false)))))
+			cl = append(cl, "minter_module_account_holds_coins")
+		}
 		positive := 0
 		for i, T := range ts {
 			d, ev, pan := mintBlock(w, ctx, cfg.Denom, T)
@@ -35,7 +43,7 @@ func TestC18Mint(t *testing.T) {
 				positive++
 			}
 		}
-		st.Case(positive >= 2, map[string]interface{}{"kind": "mint", "cfg": cfg, "blocks": ts}, "mint_events")
+		st.Case(positive >= 2, map[string]interface{}{"kind": "mint", "cfg": cfg, "blocks": ts}, cl...)
 	})
 }
 
